@@ -84,13 +84,19 @@ def in_domain(spec, snap):
             for u in unl:
                 if u in v.dims and v.dims[0] != u:
                     why.append('unlimited %s not leading in %s' % (u, k))
-        if v.mask is not None and v.fill is not None:
+        if v.mask is not None:
             keep = ~v.mask
-            try:
-                if (v.data[keep] == np.asarray(v.fill).astype(dt)).any():
-                    why.append('unmasked data equal the fill value in ' + k)
-            except Exception:
-                pass
+            # the missing code the writer uses: missing_value attribute
+            # first, then the array's fill value
+            for code in (v.attrs.get('missing_value'), v.fill):
+                if code is None:
+                    continue
+                try:
+                    if (v.data[keep] == np.asarray(code).astype(dt)).any():
+                        why.append('unmasked data equal the missing code '
+                                   'in ' + k)
+                except Exception:
+                    pass
     for k, a in snap.attrs.items():
         if isinstance(a, np.ndarray) and a.dtype == object or not isinstance(
                 a, (str, bytes, int, float, np.generic, np.ndarray, list,
